@@ -4,6 +4,7 @@ import (
 	"context"
 	"encoding/json"
 	"fmt"
+	"math"
 	"sync"
 	"testing"
 	"time"
@@ -25,6 +26,8 @@ type c16Real struct {
 	DMs    int    `json:"d_ms"`
 	GapsMs []int  `json:"gaps_ms"`
 	SlowMs []int  `json:"observer_ms,omitempty"` // time the observer spends on value k
+	// Forever (ThrottleTime): interval = time.Duration(math.MaxInt64) ("the first value only")
+	Forever bool `json:"interval_forever,omitempty"`
 }
 
 func init() {
@@ -47,6 +50,9 @@ func c16RunReal(t rt.TB, c c16Real) {
 	var obs ro.Observable[any]
 	switch c.Op {
 	case "ThrottleTime":
+		if c.Forever {
+			d = time.Duration(math.MaxInt64)
+		}
 		obs = anyObs(ro.ThrottleTime[int](d)(man.Observable()))
 	case "TimeInterval":
 		obs = anyObs(ro.TimeInterval[int]()(man.Observable()))
@@ -211,6 +217,8 @@ func TestC16_RealTime(t *testing.T) {
 	cases := []c16Real{
 		{Op: "ThrottleTime", DMs: 4, GapsMs: []int{0, 0, 0, 5, 0, 1, 6}},
 		{Op: "ThrottleTime", DMs: 2, GapsMs: []int{1, 1, 1, 1, 3, 0, 0}},
+		{Op: "ThrottleTime", Forever: true, GapsMs: []int{0, 0, 1, 0, 2}},
+		{Op: "ThrottleTime", Forever: true, GapsMs: []int{3, 3}},
 		{Op: "TimeInterval", GapsMs: []int{0, 2, 0, 3}},
 		{Op: "Timestamp", GapsMs: []int{0, 2, 0, 3}},
 		{Op: "Timeout", DMs: 30, GapsMs: []int{0, 20, 5}, SlowMs: []int{0, 25, 0}},
@@ -231,6 +239,9 @@ func TestC16_RealTime(t *testing.T) {
 			c.DMs = rapid.IntRange(8, 25).Draw(t, "d")
 			c.GapsMs = rapid.SliceOfN(rapid.IntRange(0, 14), 1, 4).Draw(t, "gaps")
 			c.SlowMs = rapid.SliceOfN(rapid.IntRange(0, 20), 0, 4).Draw(t, "slow")
+		}
+		if op == "ThrottleTime" && rapid.IntRange(0, 4).Draw(t, "forever") == 0 {
+			c.Forever = true
 		}
 		c16RunReal(t, c)
 		rt.Case(caseKey("realrand", fmt.Sprint(c)), true, "real:"+op, func() any { return c })
